@@ -115,7 +115,7 @@ def parseStore (s : String) : Option Store :=
   if body = "" then some [] else
   (body.splitOn ",").mapM fun kv =>
     match kv.splitOn "=" with
-    | [k, v] => do let k ← parseHex k; let v ← parseHex v; pure (k, v)
+    | [k, v] => do let k ← parseHex k; let v ← parseHexV v; pure (k, v)
     | _ => none
 
 /-- images taken WHILE operation `i` was in progress must be allowed for a crash during `i`; an image taken at the
